@@ -49,6 +49,7 @@ type ProdStep struct {
 	CtxAfter  time.Duration // cancel the record ctx after this long (0 = never)
 	// flush
 	FlushTO time.Duration // 0 = none
+	Quiesce bool          // take a quiescent sample (synctest.Wait) right before starting the flush
 	// faults
 	Key   int16
 	Act   bubble.Action
@@ -76,6 +77,7 @@ type ProdFocus struct {
 	NoFaults    bool
 	NoPurge     bool // exclude purge/unsafe classes (C02)
 	IdemOnly    bool
+	DelayFaults bool // only response delays as faults (C03)
 	MaxSteps    int
 }
 
@@ -125,8 +127,11 @@ func GenProdPlan(t *rapid.T, f ProdFocus) ProdPlan {
 		}
 	} else {
 		kinds = append(kinds, "abort")
+		if f.DelayFaults {
+			kinds = append(kinds, "netdelay", "netdelay")
+		}
 	}
-	delays := []time.Duration{0, 0, 0, time.Millisecond, 10 * time.Millisecond, 300 * time.Millisecond, 3 * time.Second}
+	delays := []time.Duration{0, 0, 0, time.Millisecond, 10 * time.Millisecond, 50 * time.Millisecond, 300 * time.Millisecond, 3 * time.Second}
 	for i := 0; i < ns; i++ {
 		s := ProdStep{Delay: rapid.SampledFrom(delays).Draw(t, "delay"), Kind: rapid.SampledFrom(kinds).Draw(t, "kind")}
 		switch s.Kind {
@@ -143,15 +148,21 @@ func GenProdPlan(t *rapid.T, f ProdFocus) ProdPlan {
 			}
 			s.Partition = int32(rapid.IntRange(0, int(np)-1).Draw(t, "partition"))
 			s.ValLen = rapid.SampledFrom([]int{8, 8, 40, 300}).Draw(t, "vallen")
-			s.CtxAfter = rapid.SampledFrom([]time.Duration{0, 0, 0, time.Millisecond, 50 * time.Millisecond}).Draw(t, "ctxafter")
+			s.CtxAfter = rapid.SampledFrom([]time.Duration{0, 0, 0, time.Millisecond, 50 * time.Millisecond, 2 * time.Second}).Draw(t, "ctxafter")
 		case "flush":
 			s.FlushTO = rapid.SampledFrom([]time.Duration{0, 0, 10 * time.Millisecond, 2 * time.Second}).Draw(t, "flushto")
+			s.Quiesce = rapid.Bool().Draw(t, "quiesce")
 		case "purge", "deltopic", "mktopic":
 			s.Topic = rapid.IntRange(0, nt).Draw(t, "topic")
 		case "netfault":
 			s.Key = rapid.SampledFrom([]int16{0, 0, 0, 3, 22}).Draw(t, "key")
 			s.Act = rapid.SampledFrom([]bubble.Action{bubble.KillBefore, bubble.DropResponse, bubble.DelayResponse, bubble.TruncResponse}).Draw(t, "act")
 			s.Dur = rapid.SampledFrom([]time.Duration{50 * time.Millisecond, 2 * time.Second, 40 * time.Second}).Draw(t, "dur")
+		case "netdelay":
+			s.Kind = "netfault"
+			s.Key = 0
+			s.Act = bubble.DelayResponse
+			s.Dur = rapid.SampledFrom([]time.Duration{time.Millisecond, 50 * time.Millisecond, 2 * time.Second}).Draw(t, "dur")
 		case "errcode":
 			if rapid.IntRange(0, 3).Draw(t, "fatal") == 0 {
 				s.Code = rapid.SampledFrom(fatalCodes).Draw(t, "code")
@@ -199,6 +210,14 @@ type RecState struct {
 	InFlightAtFault bool
 }
 
+// QSample is taken after synctest.Wait(): nothing in the bubble is running.
+type QSample struct {
+	LogN           int
+	Gauge, Bytes   int64
+	PendingFlushes int
+	PendingCalls   int64
+}
+
 type FlushObs struct {
 	Start, End int // log indices
 	Err        error
@@ -240,6 +259,10 @@ type ProdObs struct {
 	ClientClosed atomic.Bool
 	BlockedProduceReturnedInTime bool
 	StepKinds []string
+	Quiescents []QSample
+	GaugeViolations []string
+	started, finished atomic.Int64
+	CallDur map[int64]time.Duration // produce/try call virtual duration per record id
 	Client    *kgo.Client
 	QuiescentChecked bool
 	cancels   []context.CancelFunc
@@ -351,7 +374,7 @@ const Bound = 15 * time.Minute
 
 // RunProd executes the plan inside e and returns what was observed. It never asserts.
 func RunProd(e *bubble.Env, p ProdPlan, extraOpts ...kgo.Opt) *ProdObs {
-	o := &ProdObs{Plan: p, Log: e.Log, Net: e.Net, Env: e, FailurePaths: map[string]int{}}
+	o := &ProdObs{Plan: p, Log: e.Log, Net: e.Net, Env: e, FailurePaths: map[string]int{}, CallDur: map[int64]time.Duration{}}
 	topics := map[string]int32{}
 	for i, t := range p.Topics {
 		topics[t] = p.Parts[i]
@@ -378,6 +401,7 @@ func RunProd(e *bubble.Env, p ProdPlan, extraOpts ...kgo.Opt) *ProdObs {
 	promise := func(rs *RecState) func(*kgo.Record, error) {
 		return func(r *kgo.Record, err error) {
 			n := o.Log.Add("promise", rs.ID, "", err, r.Offset, int64(r.Partition))
+			o.sampleGauge(cl, "promise")
 			if c := atomic.AddInt32(&rs.Promises, 1); c == 1 {
 				o.mu.Lock()
 				rs.PromiseN = n
@@ -433,8 +457,13 @@ func RunProd(e *bubble.Env, p ProdPlan, extraOpts ...kgo.Opt) *ProdObs {
 				for _, rs := range batch {
 					rs.CallStart = o.Log.Add("try-start", rs.ID, "", nil, 0, 0)
 					t0 := time.Now()
+					o.started.Add(1)
 					cl.TryProduce(ctx, rs.Rec, promise(rs))
+					o.finished.Add(1)
 					rs.CallEnd = o.Log.Add("try-end", rs.ID, "", nil, int64(time.Since(t0)), 0)
+					o.mu.Lock()
+					o.CallDur[rs.ID] = time.Since(t0)
+					o.mu.Unlock()
 					if time.Since(t0) != 0 {
 						o.mu.Lock()
 						o.FailurePaths["try-took-time"]++
@@ -451,7 +480,9 @@ func RunProd(e *bubble.Env, p ProdPlan, extraOpts ...kgo.Opt) *ProdObs {
 						recs[i] = rs.Rec
 						rs.CallStart = o.Log.Add("sync-start", rs.ID, "", nil, 0, 0)
 					}
+					o.started.Add(int64(len(recs)))
 					res := cl.ProduceSync(ctx, recs...)
+					o.finished.Add(int64(len(recs)))
 					end := o.Log.Add("sync-end", rs0.ID, "", res.FirstErr(), 0, 0)
 					o.mu.Lock()
 					for _, rs := range batch {
@@ -485,15 +516,23 @@ func RunProd(e *bubble.Env, p ProdPlan, extraOpts ...kgo.Opt) *ProdObs {
 					defer blockedWG.Done()
 					for _, rs := range batch {
 						rs.CallStart = o.Log.Add("produce-start", rs.ID, "", nil, 0, 0)
+						t0 := time.Now()
+						o.started.Add(1)
 						cl.Produce(ctx, rs.Rec, promise(rs))
-						end := o.Log.Add("produce-end", rs.ID, "", nil, 0, 0)
+						o.finished.Add(1)
+						end := o.Log.Add("produce-end", rs.ID, "", nil, int64(time.Since(t0)), 0)
 						o.mu.Lock()
+						o.CallDur[rs.ID] = time.Since(t0)
 						rs.CallEnd = end
 						o.mu.Unlock()
 					}
 				})
 			}
 		case "flush":
+			if s.Quiesce {
+				e.Settle()
+				o.quiescent(cl)
+			}
 			fo := &FlushObs{Start: o.Log.Add("flush-start", 0, "", nil, 0, 0), StartAt: time.Duration(0)}
 			o.mu.Lock()
 			o.Flushes = append(o.Flushes, fo)
@@ -602,6 +641,8 @@ func RunProd(e *bubble.Env, p ProdPlan, extraOpts ...kgo.Opt) *ProdObs {
 			o.Log.Add("mktopic", 0, tn, err, 0, 0)
 		case "sleep":
 			time.Sleep(s.Dur)
+			e.Settle()
+			o.quiescent(cl)
 		case "cancelctx":
 			o.mu.Lock()
 			cs := o.cancels
@@ -678,6 +719,40 @@ func RunProd(e *bubble.Env, p ProdPlan, extraOpts ...kgo.Opt) *ProdObs {
 	o.mu.Unlock()
 	e.Net.Unblock()
 	return o
+}
+
+// sampleGauge checks BufferedProduceRecords() <= limit + calls possibly blocked, using
+// finished-before / started-after reads so the bound is sound under concurrency.
+func (o *ProdObs) sampleGauge(cl *kgo.Client, where string) {
+	lim := int64(o.Plan.Cfg.MaxBufRecs)
+	if lim <= 0 {
+		return
+	}
+	f0 := o.finished.Load()
+	g := cl.BufferedProduceRecords()
+	s1 := o.started.Load()
+	if g > lim+(s1-f0) {
+		o.mu.Lock()
+		o.GaugeViolations = append(o.GaugeViolations, fmt.Sprintf("%s: BufferedProduceRecords=%d > limit %d + %d calls in progress", where, g, lim, s1-f0))
+		o.mu.Unlock()
+	}
+	if g >= lim {
+		o.mu.Lock()
+		o.LimitHit = true
+		o.mu.Unlock()
+	}
+}
+
+func (o *ProdObs) quiescent(cl *kgo.Client) {
+	q := QSample{LogN: o.Log.Len(), Gauge: cl.BufferedProduceRecords(), Bytes: cl.BufferedProduceBytes(), PendingCalls: o.started.Load() - o.finished.Load()}
+	o.mu.Lock()
+	for _, f := range o.Flushes {
+		if !f.Returned {
+			q.PendingFlushes++
+		}
+	}
+	o.Quiescents = append(o.Quiescents, q)
+	o.mu.Unlock()
 }
 
 func (o *ProdObs) allPromised() bool {
